@@ -139,6 +139,17 @@ Theorem C14_wire_atomic_partial : forall W st orders st' e ph,
 Proof. exact wire_atomic. Qed.
 Print Assumptions C14_wire_atomic_partial.
 
+(* the same derivation entered through a pull (Node.run_data_tree): refused for cyclic data or because the data
+   tree crosses scopes (an upstream node that is no sibling), it restores the run / ran wiring of the tree and
+   gives every node of the tree -- children and outsiders -- its label back: labels, children keys, values, links
+   untouched (same guard and same gaps as above; the temporary labels are not represented in the model, the
+   correspondence check compares the labels of every node and the children keys after the failure). *)
+Theorem C14_pull_derivation_atomic_partial : forall W st target order st' e ph,
+  singles (cn st) (flow_chans W (arrange order (data_tree W (cn st) target))) ->
+  pull_derive W st target order = (st', WErr e ph) -> ph = WGraph -> same_graph st st'.
+Proof. exact pull_derive_atomic. Qed.
+Print Assumptions C14_pull_derivation_atomic_partial.
+
 (* the flow derivation is NOT all-or-nothing in general: restored lists come back re-ordered, and a failing
    new connection leaves the ones made before it *)
 Theorem C14_wire_refuted_reorder :
